@@ -271,6 +271,16 @@ Theorem every_step_resets_reference_amounts :
 Proof. exact Tie.every_step_resets_reference_amounts. Qed.
 Print Assumptions every_step_resets_reference_amounts.
 
+(* ineq(): the saturation-index equation of a force_equality phase is always handed to the solver as an equality,
+   whatever the amount of the phase and its saturation state *)
+Theorem forced_phase_equation_always_copied : forall fun1 fun2 (e : env),
+    e "x.type" = Q2R c_PP ->
+    e "comp_ptr.force_equality" <> 0 ->
+    e "x" <> e "mass_oxygen_unknown" ->
+    wp fun1 fun2 ineq_equalities e (fun e1 fl => fl = FNormal /\ e1 "called:memcpy" = 1).
+Proof. exact Tie.forced_phase_equation_always_copied. Qed.
+Print Assumptions forced_phase_equation_always_copied.
+
 (* the executable checker applied to what the implementation reports is sound for the property *)
 Theorem check_hetero_sound : forall c : hcase, case_ok c = true -> hetero_valid c.
 Proof. exact SpecProofs.case_ok_sound. Qed.
